@@ -15,6 +15,10 @@
 (*             by direct solver calls (the uninterpreted function E sampled *)
 (*             where needed)                                                *)
 (*   expect    "low" | "high" | "none": identity the input was built for    *)
+(*   optframe  per option dictionary OBJECT passed by the caller: its text  *)
+(*             as written, after build and after simulate (frame condition: *)
+(*             unchanged); levels may share one object, and a second ONIOM   *)
+(*             object may be built on the same objects (field round)        *)
 (* Verdict clauses, in order: the code's fragment geometries are the spec's *)
 (* selection plus caps (cap = staying + f (leaving - staying) EXACTLY);      *)
 (* equal (method, atom set) tokens have equal recorded values (determinism, *)
@@ -107,6 +111,11 @@ Telescoped(b) == Cardinality(DOMAIN b) = 1 /\ \A t \in DOMAIN b : b[t] = 1
 WholeTok(j, lv) == Tok(lv, j.geometry)
 SystemFrags(j) == {i \in 1..Len(j.frags) : j.frags[i].sel.kind = "none" /\ Absent(j.frags[i].high)}
 
+\* frame condition: every option dictionary the caller passed in is unchanged (canonical JSON text) after the
+\* construction/build and after simulate()
+OptionsUntouched(j) == \A i \in 1..Len(j.optframe) :
+                          j.optframe[i].built = j.optframe[i].written /\ j.optframe[i].simulated = j.optframe[i].written
+
 OniomVerdict(j) ==
   IF ~(\A i \in 1..Len(j.frags) : SelOK(j.frags[i].sel, NAtoms(j))) THEN "malformed-selection"
   ELSE IF ~OnGrid(j) /\ (\E i \in 1..Len(j.frags) : Len(j.frags[i].links) > 0) THEN "malformed-off-grid-links"
@@ -121,6 +130,7 @@ OniomVerdict(j) ==
        ELSE IF j.expect = "high" /\ ~(Telescoped(b) /\ \E i \in 1..Len(j.frags) : ~Absent(j.frags[i].high) /\ b = Single(WholeTok(j, j.frags[i].high)))
             THEN "identity-high-does-not-telescope"
        ELSE IF j.expect = "none" /\ Telescoped(b) THEN "malformed-unexpected-telescoping"
+       ELSE IF ~OptionsUntouched(j) THEN "caller-option-dictionaries-modified"      \* energies right, but the caller's dicts were consumed
        ELSE "ok"
 
 \* ---- Link.relink alone (exact): [s, l, f8] in 1/8, cap in 1/64 ------------------------------
